@@ -50,6 +50,8 @@ static bool sb_forward(int tid, void *addr, int size, uint64_t *out) {
 }  // namespace sim
 
 static inline bool active() { return R && R->current && !R->in_sim; }
+// values that may be addresses never enter the event log (they differ between two executions of one seed)
+static inline int64_t logv(uint64_t v) { return v < (1ULL << 32) ? (int64_t)v : (int64_t)0xFFFFFFFFLL; }
 
 static void observe(const void *addr) {
   Task *t = R->current;
@@ -82,7 +84,7 @@ template <typename T> static T do_load(const volatile T *a, int mo, bool vol) {
   else v = *a;
   hb::atomic_access((const void *)a, sizeof(T), false);
   hb::atomic_load((const void *)a, vol ? 2 : mo);
-  ev(vol ? "vload" : "aload", sizeof(T), mo, (int64_t)(uint64_t)v);
+  ev(vol ? "vload" : "aload", sizeof(T), mo, logv((uint64_t)v));
   observe((const void *)a);
   return v;
 }
@@ -92,7 +94,7 @@ template <typename T> static void do_store(volatile T *a, T v, int mo, bool vol)
   sb_maybe_drain();
   hb::atomic_access((const void *)a, sizeof(T), true);
   hb::atomic_store((const void *)a, vol ? 3 : mo);
-  ev(vol ? "vstore" : "astore", sizeof(T), mo, (int64_t)(uint64_t)v);
+  ev(vol ? "vstore" : "astore", sizeof(T), mo, logv((uint64_t)v));
   if (g_tso_mode && !vol && mo != 5) {
     sbuf[cur()->id].push_back(SBEntry{(void *)a, (uint64_t)v, (int)sizeof(T)});
     probe("tso.store_buffered");
@@ -119,7 +121,7 @@ template <typename T> static T do_rmw(volatile T *a, T v, int mo, Op op) {
   *a = n;
   hb::atomic_access((const void *)a, sizeof(T), true);
   hb::atomic_rmw((const void *)a, mo);
-  ev("armw", op, mo, (int64_t)(uint64_t)o);
+  ev("armw", op, mo, logv((uint64_t)o));
   wrote((const void *)a);
   return o;
 }
@@ -133,14 +135,14 @@ template <typename T> static int do_cas(volatile T *a, T *expected, T desired, i
     *a = desired;
     hb::atomic_access((const void *)a, sizeof(T), true);
     hb::atomic_rmw((const void *)a, mo);
-    ev("acas", 1, mo, (int64_t)(uint64_t)o);
+    ev("acas", 1, mo, logv((uint64_t)o));
     wrote((const void *)a);
     return 1;
   }
   *expected = o;
   hb::atomic_access((const void *)a, sizeof(T), false);
   hb::atomic_load((const void *)a, fmo);
-  ev("acas", 0, fmo, (int64_t)(uint64_t)o);
+  ev("acas", 0, fmo, logv((uint64_t)o));
   observe((const void *)a);
   return 0;
 }
